@@ -199,8 +199,8 @@ func genResult(t *rapid.T) (ech.ResolveResult, []string) {
 
 func TestC15(t *testing.T) {
 	rec := ev.Get("C15")
-	rec.Rule("ResolveResults with 0..6 HTTPS records (priority 0 included, target empty / in Additional / missing, ports 0/80/443/other, hints, 0..7 ALPN entries incl. http/1.1, no-default-alpn, ECH nil/empty/bytes), 0..6 addresses (4- and 16-byte, duplicates, invalid lengths), overlapping Additional maps, Port 80/443/other; every slice has spare capacity filled with sentinels and ALPN lists sometimes share one backing array; networks tcp/tcp4/tcp6/udp/udp4/udp6; early stop after k items. Oracle: reference Targets (pure function from the property text) element-wise (address:port, ECH incl. nil-ness, ALPN as a set), early stop = prefix, two enumerations equal, no duplicate address:port, deep snapshot (incl. spare capacity) unchanged. distinct = result hash x network; non-trivial = 2+ service-mode records or a duplicate address")
-	rec.Mandatory("hint_fallback", "port80_upgrade", "target_missing", "shared_backing_array", "net:tcp", "net:tcp4", "net:tcp6", "net:udp", "net:udp4", "net:udp6", "early_stop", "plain_fallback", "alias_ignored")
+	rec.Rule("ResolveResults with 0..6 HTTPS records (priority 0 included, target empty / in Additional / missing, ports 0/80/443/other, hints, 0..7 ALPN entries incl. http/1.1, no-default-alpn, ECH nil/empty/bytes), 0..6 addresses (4- and 16-byte, duplicates, invalid lengths), overlapping Additional maps, Port 80/443/other; every slice has spare capacity filled with sentinels and ALPN lists sometimes share one backing array; networks tcp/tcp4/tcp6/udp/udp4/udp6; early stop after k items. Oracle: reference Targets (pure function from the property text) element-wise (address:port, ECH incl. nil-ness, ALPN as a set), early stop = prefix, two enumerations equal (also when the same iter.Seq value is ranged over again after an early stop), no duplicate address:port, deep snapshot (incl. spare capacity) unchanged. distinct = result hash x network; non-trivial = 2+ service-mode records or a duplicate address")
+	rec.Mandatory("hint_fallback", "port80_upgrade", "target_missing", "shared_backing_array", "net:tcp", "net:tcp4", "net:tcp6", "net:udp", "net:udp4", "net:udp6", "early_stop", "plain_fallback", "alias_ignored", "seq_reused")
 	rapid.Check(t, func(t *rapid.T) {
 		r, cl := genResult(t)
 		network := rapid.SampledFrom([]string{"tcp", "tcp4", "tcp6", "udp", "udp4", "udp6"}).Draw(t, "network")
@@ -260,6 +260,34 @@ func TestC15(t *testing.T) {
 			k := 1 + uniform(t, "stop", len(want))
 			compare(collect(k), want[:k], fmt.Sprintf("enumeration stopped after %d", k))
 			cl = append(cl, "early_stop")
+		}
+		// one iter.Seq value ranged over several times (stopped early, then in full,
+		// twice): every enumeration starts afresh
+		{
+			var seq func(func(ech.Target) bool)
+			if e := guard(func() error { seq = r.Targets(network); return nil }); e != nil {
+				ev.Violation(t, "C15", rp, "Targets panicked: %v", e)
+			}
+			run := func(limit int) []ech.Target {
+				var got []ech.Target
+				if e := guard(func() error {
+					seq(func(tg ech.Target) bool {
+						got = append(got, tg)
+						return !(limit >= 0 && len(got) >= limit)
+					})
+					return nil
+				}); e != nil {
+					ev.Violation(t, "C15", rp, "Targets panicked: %v", e)
+				}
+				return got
+			}
+			if len(want) > 0 {
+				k := 1 + uniform(t, "restop", len(want))
+				compare(run(k), want[:k], fmt.Sprintf("same sequence value, enumeration stopped after %d", k))
+			}
+			compare(run(-1), want, "same sequence value, enumerated again in full")
+			compare(run(-1), want, "same sequence value, enumerated a third time")
+			cl = append(cl, "seq_reused")
 		}
 		if after := snapshotResult(r); after != before {
 			ev.Violation(t, "C15", map[string]any{"before": before, "after": after, "network": network}, "enumerating the targets modified the result: %s", firstDiff(after, before))
